@@ -183,7 +183,7 @@ def _contractions(chk, ift, name, dt, cplx):
         sw = f.scalar_weight(S)
         vols = R.contract(np.full(dt.shape, sp.Integer(1), dtype=object), S, lambda it: it)
         flat_w = {w for it in vols.ravel() for _, w in it}
-        ok = (sw is None) if len(flat_w) > 1 else (sw is None or sp.nsimplify(float(sw), rational=True, tolerance=1e-14) in flat_w)
+        ok = (sw is None) if len(flat_w) > 1 else (sw is None or any(abs(float(sw) - float(w)) <= 1e-13 * abs(float(w)) for w in flat_w))
         chk.obligation(f"{pre}: scalar_weight({sl}) is the uniform pixel volume if it returns one, and None if the volumes differ", "discharged" if ok else "refuted",
                        backend="native", detail=f"scalar_weight={sw}, pixel volumes {sorted(map(str, flat_w))[:4]}")
         mean_f = lambda it: sum(v * w for v, w in it) / sum(w for v, w in it)  # noqa: E731
